@@ -195,7 +195,7 @@ theorem step_claim {g : Graph} {lim : Option Nat} {s s' : St} {l : Label} (h : S
       | M => exact .inl (.inl ⟨.M, t, hw'⟩)
       | C => simp [getSched, ha] at hw'
     · exact .inl (.inr hu)
-  | cCtxDone ha hc _ =>
+  | cCtxDone ha hc _ _ =>
     rcases hu with ⟨w', t, hw'⟩ | hu
     · cases w' with
       | M => exact .inl (.inl ⟨.M, t, hw'⟩)
@@ -236,7 +236,7 @@ theorem step_pendSpawn {g : Graph} {lim : Option Nat} {s s' : St} {l : Label} (h
     cases w' with
     | M => exact .inl ⟨.M, hw'⟩
     | C => simp [getSched, ha, spawnOf] at hw'
-  | cCtxDone ha hc _ =>
+  | cCtxDone ha hc _ _ =>
     obtain ⟨w', hw'⟩ := hu
     cases w' with
     | M => exact .inl ⟨.M, hw'⟩
